@@ -8,6 +8,7 @@ import (
 	"time"
 
 	"github.com/anishathalye/porcupine"
+	"github.com/transparency-dev/witness/internal/config"
 	"github.com/transparency-dev/witness/omniwitness"
 )
 
@@ -903,6 +904,21 @@ func init() {
 				out.Viol = append(out.Viol, Violation{Class: "duplicate_config_accepted", Sig: "duplicate_config_accepted", Detail: fmt.Sprintf("a configuration naming origin %q twice was accepted by AsLogMap", dup.Origin)})
 			}
 			out.Stats.Probes["duplicate_configs_refused"]++
+			// one identity everywhere: for origins of unusual but legal shape every loader must file the log under
+			// hex(sha256("o:"+origin)) of the origin exactly as written (the first line of its checkpoints)
+			odd := []string{" leading blank", "trailing blank ", "tab\tinside", "UPPER/lower", "ünïcödé/log", "a/b/c/d", "two  blanks", "dot.", "x"}
+			oo := odd[int(p.Seed%uint64(len(odd)))]
+			ocfg := omniwitness.LogConfig{Logs: []omniwitness.LogInfo{{Origin: oo, PublicKey: w.Logs[0].Key.VerifierString(), URL: " http://z.example/ ", Feeder: omniwitness.None}}}
+			if om, err := ocfg.AsLogMap(); err != nil {
+				out.Infra = append(out.Infra, fmt.Sprintf("AsLogMap refused origin %q: %v", oo, err))
+			} else if li, ok := om[LogID(oo)]; !ok || li.Origin != oo {
+				out.Viol = append(out.Viol, Violation{Class: "id_disagreement", Sig: "id_disagreement/witness_map", Detail: fmt.Sprintf("AsLogMap files origin %q under %v, not under hex(sha256(\"o:\"+origin)) with that exact origin", oo, mapKeysOf(om))})
+			}
+			if cl, err := config.NewLog(oo, w.Logs[0].Key.VerifierString(), "http://z.example/"); err != nil {
+				out.Infra = append(out.Infra, fmt.Sprintf("config.NewLog refused origin %q: %v", oo, err))
+			} else if cl.ID != LogID(oo) || cl.Origin != oo {
+				out.Viol = append(out.Viol, Violation{Class: "id_disagreement", Sig: "id_disagreement/config_log", Detail: fmt.Sprintf("config.NewLog(%q) yields ID %s origin %q; the witness map and the bastion endpoint use %s for that origin", oo, cl.ID, cl.Origin, LogID(oo))})
+			}
 			if accepted >= 2 {
 				out.Distinct = []string{res.SchedHash}
 				out.Stats.Probes["runs_with_2plus_active_logs"]++
@@ -921,6 +937,15 @@ func opTarget(o Op, nLogs int) int {
 		return (o.L + 1 + umod(o.MV, nLogs-1)) % nLogs
 	}
 	return o.L
+}
+
+func mapKeysOf[V any](m map[string]V) []string {
+	var ks []string
+	for k := range m {
+		ks = append(ks, k)
+	}
+	sort.Strings(ks)
+	return ks
 }
 
 func filterClass(vs []Violation, classes ...string) []Violation {
